@@ -168,6 +168,7 @@ func runCampaign(c *ev.Ctx, o *campOpts) {
 			c.Count("exact_quorum_tallies_seen_by_reference", int64(t.Exact))
 			c.Count("blocks_with_cheaters", int64(t.CheatBlk))
 			c.Count("blocks_multi_event", int64(t.MultiEv))
+			c.Count("blocks_whose_atropos_lamport_is_below_the_previous_one", int64(t.LamportInversions))
 			c.Count("blocks_empty_same_atropos_twice", int64(t.EmptyBlk))
 			c.Count("frame_jump_roots", int64(t.JumpRoots))
 			c.Count("old_epoch_events_dropped_after_seal", int64(t.Skipped))
